@@ -14,7 +14,8 @@ RULE = ("cases = save_read (attributes + add_variable calls on a fresh RemoteNod
         "device from a random prior register state, read() by a second fresh node), read (arbitrary device registers), "
         "from_od (read(from_od=True) of DCF values / defaults, then save and read back), load (RemoteNode.load_configuration "
         "with an RPDO and a TPDO in the dictionary), history (several node objects and maps on one Network: set / map / "
-        "save / read / device reset, the k-th download or one upload aborted, colliding COB-IDs; after every operation: "
+        "save / read / device reset / node object moved to another Network / application unsubscribes, the k-th download or "
+        "one upload aborted, colliding COB-IDs; after every operation: "
         "outcome, log, attributes, map layout, subscription table of the whole network), indices (PdoMaps layout); "
         "COB-IDs over 11- and 29-bit ranges incl. ends, all flag combinations, transmission types 0..255, optional "
         "sub-entries present/absent, 0..8 mapped objects, RPDO/TPDO, PDO numbers 1,2,3,4,5,512 and random, devices that "
@@ -154,8 +155,9 @@ def _layout(pm):
 
 
 def run_history(c):
-    """several node objects on ONE Network, each behind its own device; per operation:
-    [outcome, device log of the operation (or True for a read), attributes, layout, subscription table]"""
+    """several node objects on one or more Network objects (all start on network 0), each behind its own device;
+    per operation: [outcome, device log of the operation (or True for a read), attributes, layout, subscription
+    tables of all networks]"""
     import canopen
     from canopen.pdo.base import PdoMap
     from ref.strict_pdo_device import StrictPdoDevice, attach
@@ -164,23 +166,24 @@ def run_history(c):
         def send_message(self, *a, **k):
             pass
 
-    net = Net()
+    nets = [Net() for _ in range(c.get("nnets", 1))]
     numbers = c["od"]["numbers"]
     odc = dict(c, n=numbers[0], od=dict(c["od"], others=numbers[1:]))
-    nodes, devs = [], []
+    nodes, devs, cur = [], [], []
     for nd in c["nodes"]:
         node = canopen.RemoteNode(nd["id"], build_od(odc))
-        net.add_node(node)
+        nets[0].add_node(node)
         dev = StrictPdoDevice({(i, s): v for i, s, v in nd["regs"]}, [tuple(o) for o in c["dev"]["objs"]], c["dev"]["mode"])
         attach(node, dev)
         nodes.append(node)
         devs.append(dev)
+        cur.append(0)
     maps = [(nodes[ni].tpdo if tp else nodes[ni].rpdo)[n] for ni, tp, n in c["keys"]]
 
     def table():
-        rows = [sorted(cid for cid, cbs in net.subscribers.items() if pm.on_message in cbs) for pm in maps]
-        infra = sum(1 for cbs in net.subscribers.values() for cb in cbs
-                    if not isinstance(getattr(cb, "__self__", None), PdoMap))
+        rows = [[sorted(cid for cid, cbs in net.subscribers.items() if pm.on_message in cbs) for net in nets] for pm in maps]
+        infra = [sum(1 for cbs in net.subscribers.values() for cb in cbs
+                     if not isinstance(getattr(cb, "__self__", None), PdoMap)) for net in nets]
         return rows + [infra]
 
     out = []
@@ -190,8 +193,16 @@ def run_history(c):
             devs[op[1]].reset({(i, s): v for i, s, v in op[2]})
             out.append([None, [], None, None, table()])
             continue
+        if kind == "move":          # the node object leaves its network and is added to network op[2]
+            node = nodes[op[1]]
+            del nets[cur[op[1]]][node.id]
+            nets[op[2]].add_node(node)
+            cur[op[1]] = op[2]
+            out.append([None, [], None, None, table()])
+            continue
         pm = maps[op[1]]
-        dev = devs[c["keys"][op[1]][0]]
+        ni = c["keys"][op[1]][0]
+        dev, net = devs[ni], nets[cur[ni]]
         if kind == "set":
             u = op[2]
             pm.cob_id, pm.enabled, pm.rtr_allowed, pm.trans_type = u["cob"], bool(u["enabled"]), bool(u["rtr"]), u["tt"]
@@ -201,6 +212,10 @@ def run_history(c):
             pm.clear()
             for i, s, l in op[2]:
                 pm.add_variable(i, s, l)
+            res, second = None, []
+        elif kind == "unsub":       # the application stops listening: Network.unsubscribe(cob_id, callback)
+            if pm.cob_id is not None and pm.on_message in net.subscribers.get(pm.cob_id, []):
+                net.unsubscribe(pm.cob_id, pm.on_message)
             res, second = None, []
         elif kind == "save":
             start = dev.begin_op(fail_download_at=op[2])
@@ -473,13 +488,25 @@ def history_oracle(c, o):
     sim = [{(i, s): v for i, s, v in nd["regs"]} for nd in c["nodes"]]     # the oracle's own register files
     known = [dict(u=None, mapping=None) for _ in keys]                      # what each map object should hold
     # callbacks that are not PDO maps (SDO, heartbeat, EMCY, NMT, LSS): whatever is there must stay
-    prev_table = [[] for _ in keys] + [o[0][4][-1] if o else 0]
+    nnets = c.get("nnets", 1)
+    prev_table = [[[] for _ in range(nnets)] for _ in keys] + [o[0][4][-1] if o else []]
+    cur = [0] * len(c["nodes"])          # the network each node object is attached to
     for pos, (op, ob) in enumerate(zip(c["ops"], o)):
         res, second, cfgobs, layout, tab = ob
-        what = f"operation {pos} {op[:2] if op[0] != 'reset' else 'reset'} of {[x[0] for x in c['ops']]}"
+        what = f"operation {pos} {op[:2] if op[0] not in ('reset', 'move') else op[:3] if op[0] == 'move' else 'reset'} of {[x[0] for x in c['ops']]}"
         kind = op[0]
-        touched = None if kind == "reset" else op[1]
-        # ---- the subscription table of the whole network
+        touched = None if kind in ("reset", "move") else op[1]
+        # ---- the subscription tables of all networks
+        if kind == "move":
+            # nothing is demanded of the maps of the node that moves (remove_network may or may not clean up); every
+            # other node's maps keep their subscriptions
+            for ki in range(len(keys)):
+                if keys[ki][0] != op[1] and tab[ki] != prev_table[ki]:
+                    return ("subscription_of_other_map_changed",
+                            f"{what}: map {keys[ki]} was subscribed to {prev_table[ki]}, now {tab[ki]}")
+            cur[op[1]] = op[2]
+            prev_table = tab
+            continue
         if tab[-1] != prev_table[-1]:
             return ("foreign_subscription_changed", f"{what}: {prev_table[-1]} -> {tab[-1]} callbacks that are not PDO maps")
         for ki in range(len(keys)):
@@ -487,12 +514,20 @@ def history_oracle(c, o):
                 return ("subscription_of_other_map_changed",
                         f"{what}: map {keys[ki]} was subscribed to {prev_table[ki]}, now {tab[ki]}")
         if touched is not None:
-            new = set(tab[touched]) - set(prev_table[touched])
+            here = cur[keys[touched][0]]
+            for j in range(nnets):
+                if j != here and tab[touched][j] != prev_table[touched][j]:
+                    return ("subscription_on_other_network_changed",
+                            f"{what}: map {keys[touched]} on network {j}: {prev_table[touched][j]} -> {tab[touched][j]} (node is on network {here})")
+            row, old = tab[touched][here], prev_table[touched][here]
+            new = set(row) - set(old)
             ok_new = set()
             if kind in ("save", "read") and res is None and cfgobs[1] and cfgobs[0] is not None:
                 ok_new = {cfgobs[0]}
-                if cfgobs[0] not in tab[touched]:
-                    return ("enabled_map_not_subscribed", f"{what}: enabled map {keys[touched]} COB-ID {cfgobs[0]:#x}, subscribed {tab[touched]}")
+                if cfgobs[0] not in row:
+                    return ("enabled_map_not_subscribed",
+                            f"{what}: enabled map {keys[touched]} COB-ID {cfgobs[0]:#x} is subscribed to {row} on the "
+                            f"network its node is attached to (network {here}); all networks: {tab[touched]}")
             if new - ok_new:
                 return ("unexpected_subscription", f"{what}: map {keys[touched]} newly subscribed to {sorted(new)}, attributes {cfgobs[:2]}")
         prev_table = tab
@@ -508,6 +543,8 @@ def history_oracle(c, o):
         k = known[touched]
         if kind == "set":
             k["u"] = dict(op[2])
+            continue
+        if kind == "unsub":
             continue
         if kind == "map":
             k["mapping"] = [(i, s, od_bits(odd, i, s) if l is None else l) for i, s, l in op[2] if od_bits(odd, i, s) is not None]
@@ -670,8 +707,10 @@ def coq_case(c):
             elif op[0] == "save": ops.append(f"HSave {gk(c['keys'][op[1]])} {gz(op[2])}")
             elif op[0] == "read": ops.append(f"HRead {gk(c['keys'][op[1]])} {gz(op[2])} {gz(op[3])}")
             elif op[0] == "reset": ops.append(f"HReset {gz(op[1])} {g_regs(op[2])}")
+            elif op[0] == "move": ops.append(f"HMove {gz(op[1])} {gz(op[2])}")
+            elif op[0] == "unsub": ops.append(f"HUnsub {gk(c['keys'][op[1]])}")
             else: raise ValueError(op[0])
-        return (f"CHistory {g_od(c['od'])} {g_dev(c['dev'])} {glist([gk(k) for k in c['keys']])} "
+        return (f"CHistory {g_od(c['od'])} {g_dev(c['dev'])} {gz(c.get('nnets', 1))} {glist([gk(k) for k in c['keys']])} "
                 f"{glist([g_regs(nd['regs']) for nd in c['nodes']])} {glist(ops)}")
     if k == "load":
         vals = glist([f"(({gz(i)}, {gz(s)}), ({gopt(v)}, {gopt(d)}))" for i, s, v, d in c["vals"]])
@@ -960,7 +999,9 @@ def gen_history(rng, tier="quick"):
         return 1 + sum(u[k] is not None for k in ("tt", "inhibit", "event", "sync")) + 2 + len(adds) + (1 if u["enabled"] else 0)
 
     ops = []
-    shape = rng.choice(["retry", "retry", "reset", "twice", "collide", "collide", "readfail", "readfail", "random"])
+    shape = rng.choice(["retry", "retry", "reset", "twice", "collide", "collide", "readfail", "readfail", "random",
+                        "move", "move", "move"])
+    c["nnets"] = rng.choice([1, 2, 2, 3]) if shape in ("move", "random", "collide") else 1
     if shape in ("retry", "reset", "twice"):
         k = rng.randrange(len(keys))
         u, adds = attrs(), mapping()
@@ -998,6 +1039,26 @@ def gen_history(rng, tier="quick"):
                 ops += [["reset", keys[k][0], prior(0)], ["read", k, 0, 0]]
             else:
                 ops += [["read", k, 0, 0]]
+    elif shape == "move":
+        # one node object is used on a network, detached (del net[id]) and attached to another Network object (or to
+        # the same one again), or the application unsubscribes the COB-ID; then read() / save() again
+        k = rng.randrange(len(keys))
+        ni = keys[k][0]
+        u = attrs(None, True if rng.random() < 0.85 else None)
+        ops += [["set", k, u], ["map", k, mapping()], ["save", k, 0]]
+        if rng.random() < 0.4:
+            ops.append(["read", k, 0, 0])
+        for _ in range(rng.randint(1, 3)):
+            r = rng.random()
+            if r < 0.6: ops.append(["move", ni, rng.randrange(c["nnets"])])
+            elif r < 0.85: ops.append(["unsub", k])
+            else: ops.append(["set", k, dict(u, cob=gen_cob(rng))])
+            ops.append(rng.choice([["read", k, 0, 0], ["save", k, 0], ["save", k, 0]]))
+        for k2 in range(len(keys)):
+            if k2 != k and rng.random() < 0.5:
+                ops += [["set", k2, attrs(u["cob"] if rng.random() < 0.5 else None, True)], ["save", k2, 0]]
+                if rng.random() < 0.5:
+                    ops += [["move", keys[k2][0], rng.randrange(c["nnets"])], ["read", k2, 0, 0]]
     elif shape == "readfail":
         k = rng.randrange(len(keys))
         ni, tp, n = keys[k]
@@ -1029,7 +1090,14 @@ def gen_history(rng, tier="quick"):
             elif r < 0.4: ops.append(["map", k, mapping(rng.choice([64, 64, 100]))])
             elif r < 0.65: ops.append(["save", k, rng.choice([0, 0, 0, rng.randint(1, 12)])])
             elif r < 0.85: ops.append(["read", k] + rng.choice([[0, 0], [0, 0], [mp, rng.randint(0, 3)], [com, rng.randint(1, 6)]]))
-            else: ops.append(["reset", ni, prior(0)])
+            elif r < 0.9: ops.append(["reset", ni, prior(0)])
+            elif r < 0.96: ops.append(["move", ni, rng.randrange(c["nnets"])])
+            else: ops.append(["unsub", k])
+    if shape == "collide" and c["nnets"] > 1 and rng.random() < 0.6:
+        k = rng.randrange(len(keys))
+        ops += [["move", keys[k][0], rng.randrange(c["nnets"])], [rng.choice(["save", "read"]), k, 0, 0][:3]]
+        if ops[-1][0] == "read":
+            ops[-1] = ["read", k, 0, 0]
     c["ops"] = ops
     return c
 
